@@ -631,7 +631,7 @@ func genSibSet(rt *rapid.T, label string) wset {
 	var ws wset
 	for i, n := range sibNames {
 		if mask&(1<<i) != 0 {
-			ws = append(ws, fent{Name: n, Len: rapid.SampledFrom([]int{8, 8, 100, 0}).Draw(rt, label+".len."+n)})
+			ws = append(ws, fent{Name: n, Len: rapid.SampledFrom([]int{8, 8, 100, 0, -1}).Draw(rt, label+".len."+n)})
 		}
 	}
 	return ws
